@@ -1160,17 +1160,62 @@ def strip_annotations_and_super(trees):
                             call.args = [ast.copy_location(ast.Name(id=c.name, ctx=ast.Load()), call), ast.copy_location(ast.Name(id=first, ctx=ast.Load()), call)]
 
 
+def drop_default_arguments(trees):
+    """f(x, None) is f(x) when the parameter's default is that very constant: trailing positional arguments and keywords equal to the
+    callee's constant default are dropped (callee resolved by simple name in the package, or self.method in the same class)"""
+    funcs, methods = {}, {}
+    for mod, tree in trees.items():
+        for n in tree.body:
+            if isinstance(n, ast.FunctionDef):
+                funcs.setdefault(n.name, []).append(n)
+            elif isinstance(n, ast.ClassDef):
+                for b in n.body:
+                    if isinstance(b, ast.FunctionDef):
+                        methods.setdefault((n.name, b.name), []).append(b)
+
+    def defaults_of(d, skip_self):
+        a = d.args
+        if a.vararg or a.posonlyargs:
+            return None
+        params = [x.arg for x in a.args][1 if skip_self else 0:]
+        dv = dict(zip([x.arg for x in a.args][len(a.args) - len(a.defaults):], a.defaults))
+        return params, dv
+
+    def same_const(x, y):
+        return isinstance(x, ast.Constant) and isinstance(y, ast.Constant) and type(x.value) is type(y.value) and x.value == y.value
+    for mod, tree in trees.items():
+        for cls in [None] + [c for c in ast.walk(tree) if isinstance(c, ast.ClassDef)]:
+            scope = tree if cls is None else cls
+            for call in ast.walk(scope):
+                if not isinstance(call, ast.Call) or any(isinstance(x, ast.Starred) for x in call.args) or any(k.arg is None for k in call.keywords):
+                    continue
+                d = None
+                if isinstance(call.func, ast.Name) and len(funcs.get(call.func.id, [])) == 1:
+                    d = defaults_of(funcs[call.func.id][0], False)
+                elif cls is not None and isinstance(call.func, ast.Attribute) and isinstance(call.func.value, ast.Name) and call.func.value.id == 'self' \
+                        and len(methods.get((cls.name, call.func.attr), [])) == 1:
+                    d = defaults_of(methods[(cls.name, call.func.attr)][0], True)
+                if d is None:
+                    continue
+                params, dv = d
+                call.keywords = [k for k in call.keywords if not (k.arg in dv and same_const(k.value, dv[k.arg]))]
+                while call.args and not call.keywords and len(call.args) <= len(params) and params[len(call.args) - 1] in dv and same_const(call.args[-1], dv[params[len(call.args) - 1]]):
+                    call.args.pop()
+
+
 def normalise_repo(trees, use_reference=True, stats=None):
     collect_sigs(trees)
     strip_annotations_and_super(trees)
+    if use_reference and reference().get('functions'):
+        inline_new_constants(trees, stats)
+        inline_new_helpers(trees, reference()['functions'], stats)
+    pass  # drop_default_arguments(trees): tried and not adopted (ties call-site checks to parameter defaults)
     for tree in trees.values():
         for n in ast.walk(tree):
             if isinstance(n, (ast.FunctionDef, ast.AsyncFunctionDef)):
                 n.body = flatten_block(n.body)
     if use_reference and reference().get('functions'):
         ref = reference()['functions']
-        inline_new_constants(trees, stats)
-        inline_new_helpers(trees, ref, stats)
         for mod, tree in trees.items():
             for key, fn in functions_of(tree, mod):
                 r = ref.get(key)
